@@ -268,3 +268,19 @@ func (b *Backend) Reset() {
 		c.C.Close()
 	}
 }
+
+// WaitBytesProgress waits until n bytes were received, the peer ended, or no
+// further byte arrived for `stall` (a verdict on progress, not on speed).
+func (c *BConn) WaitBytesProgress(n int, stall time.Duration) (got int, stalled bool) {
+	last := -1
+	for {
+		g, to := c.WaitBytes(n, stall)
+		if !to {
+			return g, false
+		}
+		if g == last {
+			return g, true
+		}
+		last = g
+	}
+}
